@@ -35,6 +35,11 @@ theorem S1invA_closed (th2 : ℝ) (h : ¬ th2 < Scalar.eps2) :
       / (2 * Real.sqrt th2 * Real.sin (Real.sqrt th2)) := by
   simp [SO3.S1invA, h]
 
+theorem rodrigues_comm (f g f' g' x y z : ℝ) :
+    rodrigues f g x y z * rodrigues f' g' x y z = rodrigues f' g' x y z * rodrigues f g x y z := by
+  rw [rodrigues_mul, rodrigues_mul]
+  congr 1 <;> ring
+
 /-- `(1 − K/2 + A K²)(1 + βK + γK²) = 1`, `θ ∈ (0, π)` (so `sin θ ≠ 0`) -/
 theorem S1inv_mul_S1 (x y z θ : ℝ) (hθ : θ ≠ 0) (hs : Real.sin θ ≠ 0)
     (hn : θ * θ = x*x + y*y + z*z) :
@@ -55,6 +60,39 @@ theorem S1inv_mul_S1 (x y z θ : ℝ) (hθ : θ ≠ 0) (hs : Real.sin θ ≠ 0)
   rw [c1, c2]
   simp [rodrigues]
 
+
+/-- the same at `θ = π` (where `sin θ = 0` and the model's `A` evaluates to `1/π²`, the limit) -/
+theorem S1inv_mul_S1_pi (x y z : ℝ) (hn : Real.pi * Real.pi = x*x + y*y + z*z) :
+    rodrigues (-(1/2)) (1 / (Real.pi*Real.pi) - (1 + Real.cos Real.pi)
+        / (2 * Real.pi * Real.sin Real.pi)) x y z
+      * rodrigues ((1 - Real.cos Real.pi) / (Real.pi * Real.pi))
+          ((Real.pi - Real.sin Real.pi) / (Real.pi * Real.pi * Real.pi)) x y z = 1 := by
+  rw [rodrigues_mul, ← hn, Real.cos_pi, Real.sin_pi]
+  have hp : Real.pi ≠ 0 := Real.pi_ne_zero
+  have c1 : -(1/2) + (1 - (-1 : ℝ)) / (Real.pi * Real.pi) - Real.pi * Real.pi *
+      (-(1/2) * ((Real.pi - 0) / (Real.pi * Real.pi * Real.pi))
+      + (1 / (Real.pi*Real.pi) - (1 + (-1 : ℝ)) / (2 * Real.pi * 0))
+        * ((1 - (-1 : ℝ)) / (Real.pi * Real.pi))) = 0 := by
+    simp only [mul_zero, div_zero, sub_zero]
+    field_simp; ring
+  have c2 : (1 / (Real.pi*Real.pi) - (1 + (-1 : ℝ)) / (2 * Real.pi * 0))
+      + (Real.pi - 0) / (Real.pi * Real.pi * Real.pi)
+      + -(1/2) * ((1 - (-1 : ℝ)) / (Real.pi * Real.pi))
+      - Real.pi * Real.pi * ((1 / (Real.pi*Real.pi) - (1 + (-1 : ℝ)) / (2 * Real.pi * 0))
+        * ((Real.pi - 0) / (Real.pi * Real.pi * Real.pi))) = 0 := by
+    simp only [mul_zero, div_zero, sub_zero]
+    field_simp; ring
+  rw [c1, c2]
+  simp [rodrigues]
+
+/-- both cases: `0 < θ ≤ π` -/
+theorem S1inv_mul_S1_le_pi (x y z θ : ℝ) (h0 : 0 < θ) (hπ : θ ≤ Real.pi)
+    (hn : θ * θ = x*x + y*y + z*z) :
+    rodrigues (-(1/2)) (1 / (θ*θ) - (1 + Real.cos θ) / (2 * θ * Real.sin θ)) x y z
+      * rodrigues ((1 - Real.cos θ) / (θ * θ)) ((θ - Real.sin θ) / (θ * θ * θ)) x y z = 1 := by
+  rcases hπ.lt_or_eq with h | h
+  · exact S1inv_mul_S1 x y z θ h0.ne' (Real.sin_pos_of_pos_of_lt_pi h0 h).ne' hn
+  · subst h; exact S1inv_mul_S1_pi x y z hn
 
 theorem se3_so3_mk7 (t : Vec ℝ 3) (q : Vec ℝ 4) : SE3.so3 (SE3.mk7 t q) = q := by
   ext i; fin_cases i <;> simp [SE3.so3, SE3.mk7, mk4]
@@ -81,35 +119,40 @@ theorem se3_exp_unfold (a : Vec ℝ 6) :
 theorem vec3_ext_get {u v : Vec ℝ 3} (h : u.get = v.get) : u = v := by
   ext i; exact congrFun h i
 
+/-- `S₁⁻¹` is the two-sided inverse of `S₁(ω)` and of the code's `R·S₁(−ω)`, closed-form branches,
+`eps2 < ‖ω‖²`, `‖ω‖ ≤ π`. -/
+theorem so3_S1inv_pack (w : Vec ℝ 3) (h : Scalar.eps2 < sqNorm w)
+    (hπ : Real.sqrt (sqNorm w) ≤ Real.pi) :
+    toM (SO3.calc_S1inv w) * (toM (SO3.matrix (SO3.exp w)) * toM (SO3.calc_S1 (vneg w))) = 1 ∧
+    (toM (SO3.matrix (SO3.exp w)) * toM (SO3.calc_S1 (vneg w))) * toM (SO3.calc_S1inv w) = 1 ∧
+    toM (SO3.calc_S1inv w) * toM (SO3.calc_S1 w) = 1 ∧
+    toM (SO3.calc_S1 w) * toM (SO3.calc_S1inv w) = 1 := by
+  have hnb : ¬ sqNorm w < Scalar.eps2 := not_lt.2 h.le
+  obtain ⟨hθ, hn, _, hRJ, hS1⟩ := so3_closed_pack w h
+  have hpos : 0 < sqNorm w := lt_trans eps2_pos h
+  set θ := Real.sqrt (sqNorm w) with hθdef
+  have hθθ : θ * θ = sqNorm w := Real.mul_self_sqrt hpos.le
+  have hθpos : 0 < θ := Real.sqrt_pos.2 hpos
+  have hA : SO3.S1invA (sqNorm w) = 1 / (θ * θ) - (1 + Real.cos θ) / (2 * θ * Real.sin θ) := by
+    rw [S1invA_closed _ hnb, ← hθdef, hθθ]
+  have key := S1inv_mul_S1_le_pi (w 0) (w 1) (w 2) θ hθpos hπ hn
+  simp only [one_mul] at hRJ hS1
+  rw [hRJ, hS1, so3_calc_S1inv_toM, hA]
+  exact ⟨key, by rw [rodrigues_comm]; exact key, key, by rw [rodrigues_comm]; exact key⟩
+
 /-- **SE3 log (exp a) = a**: `eps2 < ‖ω‖²`, `‖ω‖ < π`, both SO3 functions in their closed branch. -/
 theorem se3_log_exp (a : Vec ℝ 6) (h1 : Scalar.eps2 < sqNorm (SE3.tw a))
     (h2 : ¬ xyz2 (SO3.exp (SE3.tw a)) < Scalar.eps2)
     (hπ : Real.sqrt (sqNorm (SE3.tw a)) < Real.pi) : SE3.log (SE3.exp a) = a := by
   have hnb : ¬ sqNorm (SE3.tw a) < Scalar.eps2 := not_lt.2 h1.le
   have hlog : SO3.log (SO3.exp (SE3.tw a)) = SE3.tw a := so3_log_exp _ hnb h2 hπ
-  obtain ⟨hθ, hn, _, hRJ, _⟩ := so3_closed_pack (SE3.tw a) h1
-  have hpos : 0 < sqNorm (SE3.tw a) := lt_trans eps2_pos h1
-  set θ := Real.sqrt (sqNorm (SE3.tw a)) with hθdef
-  have hθθ : θ * θ = sqNorm (SE3.tw a) := Real.mul_self_sqrt hpos.le
-  have hθpos : 0 < θ := Real.sqrt_pos.2 hpos
-  have hs : Real.sin θ ≠ 0 := (Real.sin_pos_of_pos_of_lt_pi hθpos hπ).ne'
-  have hA : SO3.S1invA (sqNorm (SE3.tw a))
-      = 1 / (θ * θ) - (1 + Real.cos θ) / (2 * θ * Real.sin θ) := by
-    rw [S1invA_closed _ hnb, ← hθdef, hθθ]
+  obtain ⟨hI, _, _, _⟩ := so3_S1inv_pack (SE3.tw a) h1 hπ.le
   rw [se3_exp_unfold, se3_log_unfold, se3_so3_mk7, se3_r3_mk7, hlog]
   have ht : mulVec (SO3.calc_S1inv (SE3.tw a)) (mulVec (mmul (SO3.matrix (SO3.exp (SE3.tw a)))
       (SO3.calc_S1 (vneg (SE3.tw a)))) (SE3.tv a)) = SE3.tv a := by
     apply vec3_ext_get
-    rw [mulVec3_get, mulVec3_get, toM_mmul3, hRJ, so3_calc_S1inv_toM, hA, Matrix.mulVec_mulVec]
-    simp only [one_mul]
-    rw [S1inv_mul_S1 _ _ _ _ hθ hs hn, Matrix.one_mulVec]
+    rw [mulVec3_get, mulVec3_get, toM_mmul3, Matrix.mulVec_mulVec, hI, Matrix.one_mulVec]
   rw [ht, se3_mk6_tv_tw]
-
-
-theorem rodrigues_comm (f g f' g' x y z : ℝ) :
-    rodrigues f g x y z * rodrigues f' g' x y z = rodrigues f' g' x y z * rodrigues f g x y z := by
-  rw [rodrigues_mul, rodrigues_mul]
-  congr 1 <;> ring
 
 theorem se3_tw_mk6 (t w : Vec ℝ 3) : SE3.tw (SE3.mk6 t w) = w := by
   ext i; fin_cases i <;> simp [SE3.tw, SE3.mk6, mk3]
@@ -117,10 +160,11 @@ theorem se3_tw_mk6 (t w : Vec ℝ 3) : SE3.tw (SE3.mk6 t w) = w := by
 theorem se3_tv_mk6 (t w : Vec ℝ 3) : SE3.tv (SE3.mk6 t w) = t := by
   ext i; fin_cases i <;> simp [SE3.tv, SE3.mk6, mk3]
 
-/-- closed-form `log` of a canonical unit quaternion with `w > 0`: `eps2 < ‖log q‖²` and
-`‖log q‖ < π`. -/
-theorem so3_log_range (q : Vec ℝ 4) (hU : UnitQ q) (hw : 0 < q 3) (hb : ¬ xyz2 q < Scalar.eps2) :
-    Scalar.eps2 < sqNorm (SO3.log q) ∧ Real.sqrt (sqNorm (SO3.log q)) < Real.pi := by
+/-- closed-form `log` of a canonical unit quaternion (`w ≥ 0`): `eps2 < ‖log q‖²` and
+`‖log q‖ ≤ π` (`< π` when `w > 0`). -/
+theorem so3_log_range (q : Vec ℝ 4) (hU : UnitQ q) (hw : 0 ≤ q 3) (hb : ¬ xyz2 q < Scalar.eps2) :
+    Scalar.eps2 < sqNorm (SO3.log q) ∧ Real.sqrt (sqNorm (SO3.log q)) ≤ Real.pi ∧
+    (0 < q 3 → Real.sqrt (sqNorm (SO3.log q)) < Real.pi) := by
   rw [so3_log_eq_closed q hb]
   have hpos : 0 < xyz2 q := lt_of_lt_of_le eps2_pos (not_lt.1 hb)
   rw [sqNorm_so3LogClosed q hpos.ne']
@@ -128,43 +172,31 @@ theorem so3_log_range (q : Vec ℝ 4) (hU : UnitQ q) (hw : 0 < q 3) (hb : ¬ xyz
   have hunit : q 3 * q 3 + Real.sqrt (xyz2 q) * Real.sqrt (xyz2 q) = 1 := by
     rw [hnn]; unfold UnitQ at hU; unfold xyz2; linarith
   have hsin := sin_arg_mk_unit _ _ hunit
-  obtain ⟨hα0, _⟩ := half_angle_range (q 3) (Real.sqrt (xyz2 q)) (Real.sqrt_nonneg _) hw.le
-  have hα2 : Complex.arg ⟨q 3, Real.sqrt (xyz2 q)⟩ < Real.pi / 2 := by
-    have := (Complex.abs_arg_lt_pi_div_two_iff (z := ⟨q 3, Real.sqrt (xyz2 q)⟩)).2 (Or.inl hw)
-    exact (abs_lt.1 this).2
+  obtain ⟨hα0, hα1⟩ := half_angle_range (q 3) (Real.sqrt (xyz2 q)) (Real.sqrt_nonneg _) hw
   have hle := Real.sin_le hα0
   rw [hsin] at hle
   have hs0 := Real.sqrt_nonneg (xyz2 q)
   have he := eps2_pos
-  constructor
-  · nlinarith [not_lt.1 hb]
-  · rw [Real.sqrt_mul_self (by linarith)]; linarith
+  rw [Real.sqrt_mul_self (by linarith)]
+  refine ⟨by nlinarith [not_lt.1 hb], by linarith, fun hw' => ?_⟩
+  have := (Complex.abs_arg_lt_pi_div_two_iff (z := ⟨q 3, Real.sqrt (xyz2 q)⟩)).2 (Or.inl hw')
+  linarith [(abs_lt.1 this).2]
 
-/-- **SE3 exp (log g) = g**: unit rotation part with `w > 0` (angle below π), closed-form branch. -/
-theorem se3_exp_log (g : Vec ℝ 7) (hU : UnitQ (SE3.so3 g)) (hw : 0 < (SE3.so3 g) 3)
+/-- **SE3 exp (log g) = g**: unit rotation part with canonical sign `w ≥ 0` — INCLUDING the half
+turn `w = 0` (`θ = π`, where the model's `S1invA` evaluates `0/0 = 0`, which is the limit value) —
+closed-form branch. -/
+theorem se3_exp_log (g : Vec ℝ 7) (hU : UnitQ (SE3.so3 g)) (hw : 0 ≤ (SE3.so3 g) 3)
     (hb : ¬ xyz2 (SE3.so3 g) < Scalar.eps2) : SE3.exp (SE3.log g) = g := by
-  obtain ⟨h1, hπ⟩ := so3_log_range (SE3.so3 g) hU hw hb
-  have hexp : SO3.exp (SO3.log (SE3.so3 g)) = SE3.so3 g := so3_exp_log _ hU hw.le hb
-  have hnb : ¬ sqNorm (SO3.log (SE3.so3 g)) < Scalar.eps2 := not_lt.2 h1.le
-  obtain ⟨hθ, hn, _, hRJ, _⟩ := so3_closed_pack (SO3.log (SE3.so3 g)) h1
-  have hpos : 0 < sqNorm (SO3.log (SE3.so3 g)) := lt_trans eps2_pos h1
-  set w := SO3.log (SE3.so3 g) with hwdef
-  set θ := Real.sqrt (sqNorm w) with hθdef
-  have hθθ : θ * θ = sqNorm w := Real.mul_self_sqrt hpos.le
-  have hθpos : 0 < θ := Real.sqrt_pos.2 hpos
-  have hs : Real.sin θ ≠ 0 := (Real.sin_pos_of_pos_of_lt_pi hθpos hπ).ne'
-  have hA : SO3.S1invA (sqNorm w) = 1 / (θ * θ) - (1 + Real.cos θ) / (2 * θ * Real.sin θ) := by
-    rw [S1invA_closed _ hnb, ← hθdef, hθθ]
-  rw [se3_log_unfold, se3_exp_unfold, se3_tw_mk6, se3_tv_mk6, ← hwdef, hexp]
-  have ht : mulVec (mmul (SO3.matrix (SE3.so3 g)) (SO3.calc_S1 (vneg w)))
-      (mulVec (SO3.calc_S1inv w) (SE3.r3 g)) = SE3.r3 g := by
+  obtain ⟨h1, hπ, _⟩ := so3_log_range (SE3.so3 g) hU hw hb
+  have hexp : SO3.exp (SO3.log (SE3.so3 g)) = SE3.so3 g := so3_exp_log _ hU hw hb
+  obtain ⟨_, hI, _, _⟩ := so3_S1inv_pack (SO3.log (SE3.so3 g)) h1 hπ
+  rw [hexp] at hI
+  rw [se3_log_unfold, se3_exp_unfold, se3_tw_mk6, se3_tv_mk6, hexp]
+  have ht : mulVec (mmul (SO3.matrix (SE3.so3 g)) (SO3.calc_S1 (vneg (SO3.log (SE3.so3 g)))))
+      (mulVec (SO3.calc_S1inv (SO3.log (SE3.so3 g))) (SE3.r3 g)) = SE3.r3 g := by
     apply vec3_ext_get
-    rw [mulVec3_get, mulVec3_get, toM_mmul3, ← hexp, hRJ, so3_calc_S1inv_toM, hA,
-      Matrix.mulVec_mulVec]
-    simp only [one_mul]
-    rw [rodrigues_comm, S1inv_mul_S1 _ _ _ _ hθ hs hn, Matrix.one_mulVec]
+    rw [mulVec3_get, mulVec3_get, toM_mmul3, Matrix.mulVec_mulVec, hI, Matrix.one_mulVec]
   rw [ht, se3_mk7_r3_so3]
-
 
 /-! ### the rotation part of `log` is `SO3.log` of the rotation part (SE3, Galilei, SE_K_3) -/
 
